@@ -452,7 +452,7 @@ def case(ctx, rng, idx, state):
 if __name__ == "__main__":
     harness.main(
         PROP, "exploration", case, setup_fn=setup,
-        tiers=dict(quick=dict(cases=104, shards=8, time=90), thorough=dict(cases=960, shards=16, time=540)),
+        tiers=dict(quick=dict(cases=104, shards=8, time=900), thorough=dict(cases=960, shards=16, time=3000)),
         rule="two of three cases: OrbitalRotator on one full shell (s,p,d,f cycled) + two hybrids (all nine cycled) + "
              "';'-lists, rotations from {72 crystallographic O_h/D_6h operations, stabiliser of the hybrid span, continuous "
              "axial families, identity, inversion, Haar O(3)}, random (also left-handed) local bases; fresh rotator per "
